@@ -265,6 +265,11 @@ def run(module, cfg=None, workdir=None, workers=16, env=None, simulate=None, dep
     if m:
         r.generated = int(m.group(1).replace(',', ''))
         r.distinct = int(m.group(2).replace(',', ''))
+    if simulate:
+        m = re.search(r'The number of states generated: ' + _num, out)
+        if m:
+            r.generated = int(m.group(1).replace(',', ''))
+            r.distinct = r.generated
     m = re.search(r'The depth of the complete state graph search is ' + _num, out)
     if m:
         r.depth = int(m.group(1).replace(',', ''))
@@ -292,7 +297,8 @@ def run(module, cfg=None, workdir=None, workers=16, env=None, simulate=None, dep
     if finished and not viol:
         r.ok = True
     if not r.ok and not r.violated:
-        raise MachineryError('TLC failed (exit %s):\n%s\n%s' % (p.returncode, r.cmd, out[-6000:]))
+        brief = '\n'.join(l for l in out.split('\n') if not l.startswith(('Parsing file', 'Semantic processing', 'Linting of')))
+        raise MachineryError('TLC failed (exit %s):\n%s\n%s' % (p.returncode, r.cmd, brief[-4000:]))
     if r.violated and not expect_violation:
         # the caller decides what a violated model means; keep output available
         pass
